@@ -164,7 +164,7 @@ KIND = {"at": "collapse_at", "as": "collapse_as", "wt": "collapse_weight", "ps":
 
 
 def replay_state(mods, header, st, solver_every=7):
-    """replay one emitted history; returns (ncases, nontrivial keys, violations[(key, detail, what)])"""
+    """replay one emitted history; returns (ncases, number of non-trivial cases, violations[(key, detail, what)])"""
     ct, mt, ma, Solver = mods
     warnings.simplefilter("ignore")
     import copy
@@ -172,9 +172,15 @@ def replay_state(mods, header, st, solver_every=7):
     npts = (header["p"],) * header["m"] if header["mode"] != "param" else None
     mon = monitor(h, npts)
     hkey = str(h)
-    viol, keys, n = [], [], 0
+    viol, keys, n = [], 0, 0
+
+    counts = {}
 
     def bad(c, what, key, **detail):
+        k = "%s:%s" % (KIND[c["k"]], key)
+        counts[k] = counts.get(k, 0) + 1
+        if counts[k] > 2:                 # further occurrences in this history are only counted
+            return
         d = {"history": h, "npts": npts}
         d.update(describe(c))
         d.update(detail)
@@ -186,7 +192,7 @@ def replay_state(mods, header, st, solver_every=7):
         exp = elems(st["d"][i])
         n += 1
         if exp:
-            keys.append(("d", i, hkey))
+            keys += 1
         try:
             got = report_elems(c, detector(ct, c)(mon, None))
         except Exception as ex:
@@ -206,7 +212,7 @@ def replay_state(mods, header, st, solver_every=7):
         fmt = "none" if mask is None else c["mk"]["fmt"]
         n += 1
         if e["x"] > 0 or exp_r:
-            keys.append(("m", i, hkey))
+            keys += 1
         det = detector(ct, c)
         try:
             raw = det(mon, copy.deepcopy(mask))
@@ -272,4 +278,25 @@ def replay_state(mods, header, st, solver_every=7):
         if again or own:
             bad(c, "detector fed the updated mask %r reports %s again" % (newmask, srt(again or own)),
                 "fixed-point:" + fmt, got=srt(again or own))
-    return n, keys, viol
+    return n, keys, viol, counts
+
+
+def replay_chunk(args):
+    """process-pool entry: replay a list of emitted histories.
+    returns (cases, non-trivial cases, written-out violations (<= 3 per class), {class: total count})"""
+    header, states = args
+    import mystic.collapse as ct, mystic.termination as mt, mystic.mask as ma
+    from mystic.solvers import NelderMeadSimplexSolver
+    n = k = 0
+    viol, kept, perkey = [], {}, {}
+    for st in states:
+        a, b, v, cnt = replay_state((ct, mt, ma, NelderMeadSimplexSolver), header, st)
+        n += a
+        k += b
+        for x in v:
+            if kept.get(x[0], 0) < 3:
+                kept[x[0]] = kept.get(x[0], 0) + 1
+                viol.append(x)
+        for key, c in cnt.items():
+            perkey[key] = perkey.get(key, 0) + c
+    return n, k, viol, perkey
